@@ -10,6 +10,8 @@ buckshot/sparsity pass (lower, upper, npts); sampled points are an affine image
 of the unit cube / pass through clip; the three wrappers agree.
 Round 3: __update_state hands back on every path on which the scan found a
 member.
+Round 4: grid.randomly_bin and its nested factors keep their confirmed
+definitions (bins multiply to N, primes included).
 NOT decided: that gridpts enumerates the full Cartesian product, that fillpts
 stays in range (it runs an optimiser), step-vs-solve equality, real-call counts.
 """
